@@ -45,9 +45,9 @@ def apply_op(objs, op, kind):
         objs[op["h"]] = objs[op["c"]].create_property(W.conc_name(op["n"]), values=[1])
     elif n == "clone_attach":
         y = objs[op["x"]].clone(keep_id=op["keep"])
-        objs[op["h"]] = y
         if op["c"] != "none":
-            objs[op["c"]].append(y)
+            objs[op["c"]].append(y)      # a refused append leaves only an unreferenced detached copy behind
+        objs[op["h"]] = y
     else:
         raise C.MachineryError("unknown op " + n)
 
@@ -75,7 +75,7 @@ def replay(t):
     if pre0 != t["pre"]:
         raise C.MachineryError("could not build pre-state: %r vs %r" % (pre0, t["pre"]))
     pre, out, exc, post, _ = step(objs, t["op"], t["pre"]["kind"])
-    yield {"src": "model", "op": t["op"], "out": out, "exc": exc, "pre": pre, "post": post}
+    yield {"fam": "tree", "src": "model", "op": t["op"], "out": out, "exc": exc, "pre": pre, "post": post}
 
 
 # ---------------------------------------------------------------------------------------
@@ -130,7 +130,7 @@ def replay_history(t):
         cur, objs = W.project(objs, docof=False)
         op = _ops_for(cur, rng)
         pre, out, exc, post, objs = step(objs, op, cur["kind"])
-        yield {"src": "hist" if op["name"] == "clone_attach" else "model", "hist": t["hist"], "step": i, "op": op,
+        yield {"fam": "tree", "src": "hist" if op["name"] == "clone_attach" else "model", "hist": t["hist"], "step": i, "op": op,
                "out": out, "exc": exc, "pre": pre, "post": post}
         # a parent cycle makes later library calls loop: stop the history there
         if _has_cycle(post):
